@@ -486,6 +486,12 @@ def verify_fll_schema(run):
     for comp, (exp_fns, imp_fn) in comps.items():
         ex_map, im_map = exported(exp_fns), imported(imp_fn)
         ex_map.pop("term", None) if comp == "RuleBlock" else None
+        if len(ex_map) < 4 or len(im_map) < 4:
+            # the functions are not written as `self.format('key', ...)` lines / `key == '...'` branches any more: nothing can be read off the AST -
+            # undecided (the bounded stand-in decides), never a violation
+            run.add(undecided(f"exporter.FllExporter+importer.FllImporter/{comp}.keys_and_fields_agree", f"pattern not recognised: {len(ex_map)} exported keys, {len(im_map)} importer branches",
+                              fn=f"importer.FllImporter.{imp_fn}", meta=RP("fll-structure")))
+            continue
         problems = []
         for key, (attrs, conv) in ex_map.items():
             if key not in im_map:
